@@ -44,10 +44,12 @@ def poly_signed(vx, vy, x, y):
     return np.where(inside, dist, -dist)
 
 
-def signed(s, x, y):
+def signed(s, x, y, rho=None):
     x = np.asarray(x, dtype=float)
     y = np.asarray(y, dtype=float)
     k = s["k"]
+    if rho is None:
+        rho = 3e-7 * scale_of(s)
     if k == "rect":
         cx = s["xmin"] + (s["xmax"] - s["xmin"]) / 2
         cy = s["ymin"] + (s["ymax"] - s["ymin"]) / 2
@@ -60,9 +62,19 @@ def signed(s, x, y):
         r = np.hypot(x - s["xc"], y - s["yc"])
         return np.minimum(r - s["ri"], s["ro"] - r)
     if k == "ellipse":
+        # g = sqrt((x'/rx)^2 + (y'/ry)^2) is 1 on the boundary.  Two certified lower bounds of the distance:
+        #  global: |g-1| * min(rx, ry)   (g is Lipschitz with constant 1/min(r))
+        #  local : |g-1| / sup|grad g| over the ball of radius rho around the point (valid for claims "distance > t", t <= rho)
         xr, yr = _rot(-s.get("theta", 0.0), x - s["xc"], y - s["yc"])
-        q = np.sqrt((xr / s["rx"]) ** 2 + (yr / s["ry"]) ** 2)
-        return (1 - q) * min(s["rx"], s["ry"])
+        rx, ry = s["rx"], s["ry"]
+        g = np.sqrt((xr / rx) ** 2 + (yr / ry) ** 2)
+        glob = np.abs(g - 1) * min(rx, ry)
+        with np.errstate(all="ignore"):
+            gmin = g - rho / min(rx, ry)
+            G = np.sqrt(((np.abs(xr) + rho) / rx ** 2) ** 2 + ((np.abs(yr) + rho) / ry ** 2) ** 2) / np.where(gmin > 0, gmin, np.nan)
+            loc = np.where(gmin > 0, np.minimum(np.abs(g - 1) / G, rho * 1.0000001), 0.0)
+        loc = np.nan_to_num(loc, nan=0.0)
+        return np.sign(1 - g) * np.maximum(glob, loc)
     if k == "poly":
         return poly_signed(s["vx"], s["vy"], x, y)
     if k == "xrange" or (k == "range" and s["ori"] == "x"):
@@ -102,12 +114,63 @@ def contains_strict(s, x, y):
     return signed(s, x, y) > 0
 
 
+def min_size(s):
+    k = s["k"]
+    if k == "rect":
+        return min(s["xmax"] - s["xmin"], s["ymax"] - s["ymin"])
+    if k == "circ":
+        return s["r"]
+    if k == "annulus":
+        return min(s["ri"], s["ro"] - s["ri"])
+    if k == "ellipse":
+        return min(s["rx"], s["ry"])
+    if k == "poly":
+        return min(max(s["vx"]) - min(s["vx"]), max(s["vy"]) - min(s["vy"]))
+    return abs(s["hi"] - s["lo"])
+
+
+def bbox(s):
+    k = s["k"]
+    if k == "rect":
+        cx, cy = center_of(s)
+        r = 0.5 * math.hypot(s["xmax"] - s["xmin"], s["ymax"] - s["ymin"])
+        return cx - r, cx + r, cy - r, cy + r
+    if k in ("circ", "annulus", "ellipse"):
+        r = s["r"] if k == "circ" else (s["ro"] if k == "annulus" else max(s["rx"], s["ry"]))
+        return s["xc"] - r, s["xc"] + r, s["yc"] - r, s["yc"] + r
+    if k == "poly":
+        return min(s["vx"]), max(s["vx"]), min(s["vy"]), max(s["vy"])
+    if k == "xrange":
+        return s["lo"], s["hi"], -3.0, 3.0
+    return -3.0, 3.0, s["lo"], s["hi"]
+
+
+def poly_centroid(vx, vy):
+    vx, vy = list(vx), list(vy)
+    if vx[0] == vx[-1] and vy[0] == vy[-1]:
+        vx, vy = vx[:-1], vy[:-1]
+    n = len(vx)
+    mx, my = sum(vx) / n, sum(vy) / n
+    a = cx = cy = 0.0
+    for i in range(n):
+        x0, y0, x1, y1 = vx[i] - mx, vy[i] - my, vx[(i + 1) % n] - mx, vy[(i + 1) % n] - my
+        cr = x0 * y1 - x1 * y0
+        a += cr
+        cx += (x0 + x1) * cr
+        cy += (y0 + y1) * cr
+    if a == 0:
+        return mx, my
+    return mx + cx / (3 * a), my + cy / (3 * a)
+
+
 def center_of(s):
     k = s["k"]
     if k == "rect":
         return (s["xmin"] + s["xmax"]) / 2, (s["ymin"] + s["ymax"]) / 2
     if k in ("circ", "annulus", "ellipse"):
         return s["xc"], s["yc"]
+    if k == "poly":
+        return poly_centroid(s["vx"], s["vy"])
     raise ValueError(k)
 
 
